@@ -392,6 +392,11 @@ def exec_correspondence(ctx, exe, items):
         if pr is None or pr["status"] not in ("equal", "DIFF", "py-undefined", "outside-guard:model-predicted-deviation"):
             st["skipped:" + (pr["status"] if pr else "none")] += 1
             continue
+        if pr["status"] == "py-undefined" and leaves_int32(src, p["input"], l):
+            # CPython stopped on an int far outside the 32-bit range (e.g. repeated squaring over several passes: "Exceeds the
+            # limit for integer string conversion"): outside the guard, and the exact-Z model would compute the same giants
+            st["skipped:py-undefined-beyond-int32"] += 1
+            continue
         ee = exec_exprs(an.exprs, const_inputs(p["input"]))
         if ee is None:
             st["skipped:varying-input"] += 1
